@@ -51,6 +51,21 @@ class C12(Prop):
     return stop_case()
 
   def check(self, case, stats):
+    if "window_search" in case:
+      # a listed finding described by a small family of scripted schedules at the stop instant:
+      # the timer thread gets K steps, then the stopping thread, then the object's thread, then
+      # the stopping thread again
+      lo, hi = case["window_search"]
+      for p1 in (1, 2):
+        for p2 in (1, 2):
+          for k in range(lo, hi + 1):
+            c = dict((a, b) for a, b in case.items() if a != "window_search")
+            c["timed_schedule"] = {str(case["stop_at"]): [[p1, k], [0, 400], [p2, 400], [0, 2000]]}
+            self.check_one(c, stats)
+      return
+    return self.check_one(case, stats)
+
+  def check_one(self, case, stats):
     w = TimedWorld(case)
     Event, signals, rec = w.Event, w.signals, w.rec
     info = {}
@@ -65,6 +80,7 @@ class C12(Prop):
           info["handler_stop_inv"] = s.steps
           c.stop()
           info["handler_stop_ret"] = s.steps
+          info["stop_now"] = s.now
       chart, fn = w.make_chart(s, "ao1", on_extra=on_extra)
 
       def on_other(c, e):
@@ -73,6 +89,7 @@ class C12(Prop):
           info["stop_inv"] = s.steps
           chart.stop()
           info["stop_ret"] = s.steps
+          info["stop_now"] = s.now
           info["alive_after"] = chart.thread.is_alive()
       other, fn2 = w.make_chart(s, "ao1" if case.get("same_name") else "ao2", on_extra=on_other)
       chart._vf_key, other._vf_key = "ao1", "ao2"
@@ -97,6 +114,7 @@ class C12(Prop):
         info["stop_inv"] = s.steps
         chart.stop()
         info["stop_ret"] = s.steps
+        info["stop_now"] = s.now
         info["alive_after"] = chart.thread.is_alive()
       elif case["stop_from"] == "other_handler":
         other.post_fifo(Event(signal=signals["VSTOP"], payload=0))
@@ -154,9 +172,10 @@ class C12(Prop):
           ret, more[0][1]), "C12:step-after-stop")
       late = [p for p in rec.posts if p["ao"] == "ao1" and p["sig"] in ("VB", "VD", "VE") and p["inv"] > ret]
     if late:
-      one_same_instant = len(late) <= len(case["sources"]) and len(set(p["id"] for p in late)) == len(late) and \
-          all(p["now"] == late[0]["now"] for p in late) and \
-          abs(late[0]["now"] - (case["stop_at"])) < 1e-9
+      # the known check-then-post window: at most one stray post per source, at the very instant
+      # at which stop() returned
+      one_same_instant = len(set(p["id"] for p in late)) == len(late) and \
+          all(abs(p["now"] - info.get("stop_now", -1.0)) < 1e-12 for p in late)
       bucket = "C12:check-then-post-window" if one_same_instant else "C12:source-keeps-posting"
       self.violation(stats, "timed source(s) posted after stop() returned at step %d: %s" % (
         ret, [(p["id"], p["inv"], p["now"]) for p in late]), bucket)
